@@ -45,6 +45,27 @@ CHECKS = {
              'defaults and Opus volume letters; type/list/dump are probed with present and absent names.',
         note='Directory letters are probed in matching case for type/list/dump; catalogue names never contain '
              '. : # * or space.'),
+    'C04': dict(
+        category='exploration', design_ref='DESIGN.md section 2, C04',
+        technique='fingerprint oracle on dump-sector output plus hook invariant on recorded file positions (S/F event log)',
+        text='Every sector of every generated surface carries a unique fingerprint; dump-sector on boundary and random '
+             '(track, sector) addresses of ssd/sdd, dsd/ddd and MMB slots must show the sector stored at the '
+             'documented offset, and the S/F hook records of the same read must carry that position.  Out-of-range '
+             'addresses, reads past the end of truncated files and MMB slots with status F0/FF/illegal must fail '
+             'with a diagnostic and no data.',
+        note='MMB drive numbers are taken under --drive-first.  Known finding: side 1 of a two-sided non-interleaved '
+             'ssd/sdd is never attached (see known_findings.txt).'),
+    'C17': dict(
+        category='fault_enumeration', design_ref='DESIGN.md section 2, C17',
+        technique='boundary fault enumeration with unique-sector attribution of every output block and V/S hook limit invariant',
+        text='Catalogue entries ending boundary-2..boundary+3 sectors around the end of every Opus volume A-H, each '
+             'side of dsd/ddd, one-sided images and MMB slots; type --binary, dump and extract-files are judged: no '
+             'output block (full or partial) may equal a container sector outside the region, overruns must fail '
+             'with a diagnostic, fitting entries must be delivered; the Volume/FileView hook records must never be '
+             'forwarded at or past the limit.  The run is inconclusive unless reads beyond a limit were observed in '
+             'all four contexts.',
+        note='Surfaces above 1023 sectors cannot be overrun at the surface end by a 10-bit start sector; flux '
+             'surfaces are covered by C05/C06.'),
 }
 
 PENDING_REASON = 'check not built yet in this revision of /verif (see DESIGN.md section 7 for the order of work)'
